@@ -300,6 +300,11 @@ def build_cases(tier="quick"):
     from contracts import c02
 
     ref += [Case(f"{PROP}/sevm.Path.branch#size-tables-owned", c.case, c.harness, replay=c.replay, sources=c.sources) for c in c02.path_cases() if "Path.branch" in c.unit]
+    # with --cache-solver a violation query is answered unsat from a recorded core: the core must be the solver's (C16's units)
+    from contracts import c16
+    from contracts.common import rewrap
+
+    ref += rewrap(PROP, c16.parse_core_cases() + c16.check_unsat_cores_cases() + c16.from_result_cases(), "cached-unsat")
     return panic_cases() + fail_flag_cases() + handler_cases() + setup_cases() + ref
 
 
